@@ -98,7 +98,7 @@ def check(ctx, only=None, list_only=False):
     meta = {
         "functions_encoded": sorted(FUNN.values()) + ["init_* / new_*_precomp of the same tables", "vec_znx_* / big entry points (prefill independence)",
                                                       "vec_znx_dft/idft, svp_apply_dft, vmp_apply_dft_to_dft at buffer offsets 0/8/24"],
-        "bounds": "three- and four-call histories over two dimensions (4/8/16) and two parameter sets (divisor 2^0..2^5, bounds 50/63, overhead 18), both cpu flags; "
+        "bounds": "product pipelines at N=16 with their scratch buffers 8/24/56 bytes past a 64-byte boundary (same exact polynomial as aligned); three- and four-call histories over two dimensions (4/8/16) and two parameter sets (divisor 2^0..2^5, bounds 50/63, overhead 18), both cpu flags; "
                   "cache-keying mistakes involving two parameter sets are exactly what these histories can show",
         "outside": "histories longer than four calls and random programs of hundreds of calls; reim_fft_simple / reim_ifft_simple / cplx_(i)fft_simple (their builders "
                    "cast pointers through integers and call libm, which the symbolic front end cannot execute); result independence of prior output contents for the "
